@@ -40,6 +40,23 @@ func H(a int) int { return work(a) + 3000 }
 //go:noinline
 func Gen[T int | int64]() T { return T(work(5) + 4000) }
 
+// Loop has its loop head inside the first bytes of its body: it can be mocked, but its entry cannot be relocated into an
+// origin placeholder (a branch of the function jumps into the bytes the entry jump overwrites), so an Apply that asks for
+// an Origin is rejected - inside the patch step, after the patch table has been consulted.
+//
+//go:noinline
+func Loop(n int) int {
+	for n > 100 {
+		n -= 3
+	}
+	return n
+}
+
+//go:noinline
+func PhLoop(a int) int { return filler(a) - 1100 }
+
+var OLoop = PhLoop
+
 // GenF, GenG, GenH: the targets f, g, h of the lifecycle family as instantiations of generic functions
 // (goom supports generic functions without parameters: the shape body's first argument is the dictionary).
 //
@@ -149,6 +166,7 @@ var (
 // RestoreOrigins points the origin variables back at their placeholder functions.
 func RestoreOrigins() {
 	OF, OG, OH = PhF, PhG, PhH
+	OLoop = PhLoop
 	OMF, OMG, OMH = PhMF, PhMG, PhMH
 	OUF, OUG, OUH = PhUF, PhUG, PhUH
 }
